@@ -82,6 +82,11 @@ fn binding() -> u16 {
     1
 }
 
+thread_local! {
+    /// order of the optional `StunClienteBuilder` calls used by `Cfg::build` on this thread (see C13's builder routes)
+    pub static BUILD_ORDER: std::cell::Cell<u8> = std::cell::Cell::new(0);
+}
+
 /// what the caller's buffer holds before a send: never zeros, so bytes the encoder fails to write show up
 pub const DIRTY: u8 = 0xA5;
 
@@ -105,18 +110,36 @@ impl Cfg {
                 rc,
             }),
         };
-        let mut b = StunClienteBuilder::new(rel).with_max_transactions(self.max_tx);
-        b = match self.mech {
-            Mech::None => b,
-            Mech::ShortTerm(alg) => b.with_mechanism(
-                self.creds().user,
-                self.creds().pass,
-                CredentialMechanism::ShortTerm(alg.map(|sha| if sha { Integrity::MessageIntegritySha256 } else { Integrity::MessageIntegrity })),
-            ),
-            Mech::LongTerm => b.with_mechanism(self.creds().user, self.creds().pass, CredentialMechanism::LongTerm),
+        // the three optional builder calls in the order selected by BUILD_ORDER (0 = max_transactions, mechanism, fingerprint)
+        let order: [u8; 3] = match BUILD_ORDER.with(|c| c.get()) % 6 {
+            0 => [0, 1, 2],
+            1 => [0, 2, 1],
+            2 => [1, 0, 2],
+            3 => [1, 2, 0],
+            4 => [2, 0, 1],
+            _ => [2, 1, 0],
         };
-        if self.fingerprint {
-            b = b.with_fingerprint();
+        let mut b = StunClienteBuilder::new(rel);
+        for step in order {
+            b = match step {
+                0 => b.with_max_transactions(self.max_tx),
+                1 => match self.mech {
+                    Mech::None => b,
+                    Mech::ShortTerm(alg) => b.with_mechanism(
+                        self.creds().user,
+                        self.creds().pass,
+                        CredentialMechanism::ShortTerm(alg.map(|sha| if sha { Integrity::MessageIntegritySha256 } else { Integrity::MessageIntegrity })),
+                    ),
+                    Mech::LongTerm => b.with_mechanism(self.creds().user, self.creds().pass, CredentialMechanism::LongTerm),
+                },
+                _ => {
+                    if self.fingerprint {
+                        b.with_fingerprint()
+                    } else {
+                        b
+                    }
+                }
+            };
         }
         b.build().expect("client builds")
     }
